@@ -37,10 +37,18 @@ pub fn validate(src: &str) -> Verdict {
     }
     let asm_from_ref = conv::asm(&rasm);
     for path in ["ast", "text"] {
+        let asm = if path == "ast" {
+            asm_from_ref.clone()
+        } else {
+            match mc::catch(|| AsmParser::parse(src)) {
+                Ok(Ok(a)) => a,
+                // accept/reject and parser panics are C03's subject
+                _ => return Verdict::Skip("the parser does not accept this program of the language (C03)"),
+            }
+        };
         let r = mc::catch(|| {
-            let asm = if path == "ast" { asm_from_ref.clone() } else { AsmParser::parse(src).map_err(|e| format!("{}", e)).expect("reference accepts, parser must too (C03)") };
             let bc = Translator::compile(&asm);
-            (asm, bc)
+            (asm.clone(), bc)
         });
         let (asm, bc) = match r {
             Ok(v) => v,
@@ -151,7 +159,7 @@ fn prefix_alphabet() -> Vec<&'static str> {
 
 /// (b): prefix sequences x shapes, with labels before every element and after, referenced
 /// forward, backward and in mixed case.
-fn layout_programs(depth: usize, shapes: &[String]) -> Vec<String> {
+pub fn layout_programs(depth: usize, shapes: &[String]) -> Vec<String> {
     let alpha = prefix_alphabet();
     let mut seqs: Vec<Vec<&str>> = vec![vec![]];
     let mut cur: Vec<Vec<&str>> = vec![vec![]];
@@ -189,7 +197,7 @@ fn layout_programs(depth: usize, shapes: &[String]) -> Vec<String> {
 }
 
 /// (c): relative jumps from every address to every target.
-fn jump_programs(full: bool) -> Vec<String> {
+pub fn jump_programs(full: bool) -> Vec<String> {
     let mut out = vec![];
     let conds = ["JR", "JCS", "JCC", "JZS", "JZC", "JNS", "JNC"];
     let froms: Vec<usize> = if full { (0..=0xEC).collect() } else { vec![0, 1, 2, 0x7D, 0x7E, 0x7F, 0x80, 0x81, 0xEB, 0xEC] };
@@ -210,7 +218,7 @@ fn jump_programs(full: bool) -> Vec<String> {
 }
 
 /// (d): limits.
-fn limit_programs() -> Vec<String> {
+pub fn limit_programs() -> Vec<String> {
     let mut out = vec![];
     for st in ["", "*STACKSIZE 0", "*STACKSIZE 16", "*STACKSIZE 32", "*STACKSIZE 48", "*STACKSIZE 64", "*STACKSIZE NOSET", "*stacksize noset"] {
         for pr in ["", "*PROGRAMSIZE AUTO", "*PROGRAMSIZE NOSET", "*PROGRAMSIZE 0", "*PROGRAMSIZE 1", "*PROGRAMSIZE 255", "*programsize auto"] {
